@@ -7,7 +7,8 @@ LEAN_MODULES = ["NiftyVerif.Props.C36"]
 DRIVER = "Driver/C36.lean"
 OBLIGATIONS = ["NiftyVerif.C36." + t for t in (
     "redchisq_sample_spec", "redchisq_spec", "scmean_sample_spec", "scmean_spec", "counts_spec", "all_ignored_case",
-    "cl_eq_re_on_clean_real", "cl_eq_re_reports_on_clean_real", "re_complex_ndof", "zeros_differ_by_count")]
+    "cl_eq_re_on_clean_real", "cl_eq_re_reports_on_clean_real", "re_complex_ndof", "zeros_differ_by_count",
+    "var_ddof_relation", "cl_var_spec", "cl_re_var_on_clean_real")]
 RULE = ("case = (likelihood: Gaussian with dyadic diagonal inverse covariance on 1-8 points, two latent keys; 1-6 samples "
         "with integer/dyadic values; stream clean | zeros (sample == data / latent 0) | nan (NaN in data or latent) | "
         "complex | all-ignored); the normalised residual arrays produced by the REAL likelihood are shipped to the model as "
@@ -19,8 +20,11 @@ TRUSTED_BASE = [
     "sample mean modelled as sum/len (StatCalculator's Welford recursion is C26's subject); float rounding outside the "
     "model: compared with relative tolerance 1e-11 (inputs are small dyadics, observed noise < 1e-15)",
 ]
-ASSUMPTIONS = ["standard deviations (classic: unbiased, JAX: population) are reported by both but are not part of the property",
-               "table formatting / colours not modelled"]
+ASSUMPTIONS = ["standard deviations: classic unbiased (1/(n-1), none for one sample), JAX population (1/n); modelled as two-pass "
+               "variances (Welford's recursion is C26) and compared as std^2 with relative tolerance 1e-9; complex means: only "
+               "the variance of the real reduced chi-square is compared",
+               "printed table: every row is re-derived from the returned values with the documented format (1 decimal, "
+               "'±' only with a standard deviation, '-' for no ignored dof) and must occur in the table; colours off"]
 TOL = 1e-11
 
 
@@ -65,7 +69,7 @@ def _real(case):
     import jax.numpy as jnp
     import nifty.re as jft
     lh, sl = _build(case)
-    _, v = ift.extra.minisanity(lh, sl, terminal_colors=False, return_values=True)
+    table, v = ift.extra.minisanity(lh, sl, terminal_colors=False, return_values=True)
     arrays = {"data:<None>": [np.asarray(r.val.asnumpy()) for r in sl.iterator(lh.normalized_residual)]}
     for k in ("a", "b"):
         arrays["latent:" + k] = [np.asarray(s[k].val.asnumpy()) for s in sl.iterator()]
@@ -74,12 +78,27 @@ def _real(case):
         cat, kk = key.split(":")
         cat = "data_residuals" if cat == "data" else "latent_variables"
         m = complex(v["scmean"][cat][kk]["mean"])
+        rstd, mstd = v["redchisq"][cat][kk]["std"], v["scmean"][cat][kk]["std"]
         cl = dict(redchisq=float(v["redchisq"][cat][kk]["mean"]), meanRe=m.real, meanIm=m.imag,
-                  ndof=int(v["ndof"][cat][kk]), nigndof=int(v["nigndof"][cat][kk]))
+                  ndof=int(v["ndof"][cat][kk]), nigndof=int(v["nigndof"][cat][kk]),
+                  redchisqVar=None if rstd is None else float(np.real(rstd)) ** 2,
+                  meanReVar=None if (mstd is None or case["cplx"]) else float(np.real(mstd)) ** 2)
+        # the printed row, re-derived from the returned values with the documented format
+        foo = f"{cl['redchisq']:.1f}" + ("" if rstd is None else f" ± {rstd:.1f}")
+        mval = v["scmean"][cat][kk]["mean"]
+        bar = f"{mval:.1f}" + ("" if mstd is None else f" ± {mstd:.1f}")
+        cplx_table = any(np.iscomplexobj(v["scmean"][c2][k2]["mean"]) for c2 in v["scmean"] for k2 in v["scmean"][c2])
+        row = "  " + kk.ljust(18) + f"{foo:>11}" + (f"{bar:>26}" if cplx_table else f"{bar:>14}") + f"{cl['ndof']:>11}" \
+              + f"{('-' if cl['nigndof'] == 0 else cl['nigndof']):>11}"
+        cl["_row_ok"] = row in table.split("\n")
+        cl["_section_ok"] = ("Data residuals" in table and "Latent space" in table
+                             and table.index("Data residuals") < table.index("Latent space"))
         try:
             st = jft.reduced_residual_stats(jft.Samples(pos=None, samples=jnp.stack(arrs)))
             rm = complex(st.mean[0])
-            re = dict(rchisq=float(st.reduced_chisq[0]), meanRe=rm.real, meanIm=rm.imag, ndof=int(st.ndof))
+            re = dict(rchisq=float(st.reduced_chisq[0]), meanRe=rm.real, meanIm=rm.imag, ndof=int(st.ndof),
+                      rchisqVar=float(st.reduced_chisq[1]) ** 2,
+                      meanReVar=None if case["cplx"] else float(np.real(st.mean[1])) ** 2)
             if any(math.isnan(x) for x in (re["rchisq"], re["meanRe"], re["meanIm"])):
                 re = {"error": "nan"}
         except Exception as e:  # noqa: BLE001
@@ -88,8 +107,8 @@ def _real(case):
     return out
 
 
-def _close(x, y):
-    return abs(x - y) <= TOL * (1.0 + abs(x) + abs(y))
+def _close(x, y, tol=None):
+    return abs(x - y) <= (tol or TOL) * (1.0 + abs(x) + abs(y))
 
 
 def _cmp(impl, model, keys):
@@ -98,8 +117,10 @@ def _cmp(impl, model, keys):
         return impl.get("error") == model.get("error")
     for k in keys:
         mv = model[k]
+        if impl.get(k, "skip") is None and mv is not None and k == "meanReVar":
+            continue          # complex means: variance not compared
         if isinstance(mv, str):
-            if not _close(impl[k], float(Fraction(mv))):
+            if impl[k] is None or not _close(impl[k], float(Fraction(mv)), 1e-9 if k.endswith("Var") else TOL):
                 return False
         elif impl[k] != mv:
             return False
@@ -145,7 +166,18 @@ def _judge(case, real):
         if (cl["ndof"], cl["nigndof"]) != (nd, nig) or cl["ndof"] + cl["nigndof"] != len(arrs[-1]):
             bad.append((f"classic minisanity [{key}] reports ndof={cl['ndof']}, nigndof={cl['nigndof']}; expected {nd}, {nig}",
                         dict(site="cl.minisanity", kind="counts")))
+        if not cl.get("_row_ok", True) or not cl.get("_section_ok", True):
+            bad.append((f"classic minisanity [{key}]: the printed table has no row showing the returned values "
+                        f"(redchisq {cl['redchisq']}, mean {cl['meanRe']}, ndof {cl['ndof']}, ign. {cl['nigndof']})",
+                        dict(site="cl.minisanity", kind="table")))
+        ns = len(arrs)
+        if (cl["redchisqVar"] is None) != (ns < 2):
+            bad.append((f"classic minisanity [{key}]: standard deviation {'missing' if ns >= 2 else 'reported'} for {ns} sample(s)",
+                        dict(site="cl.minisanity", kind="std")))
         cause = _cause(case, arrs)
+        if cause == "clean" and ns >= 2 and "error" not in re and not _close((ns - 1) * cl["redchisqVar"], ns * re["rchisqVar"], 1e-9):
+            bad.append((f"std of the reduced chi-square [{key}]: classic (unbiased) {cl['redchisqVar']} and JAX (population) "
+                        f"{re['rchisqVar']} are not related by (n-1)/n, n={ns}", dict(site="cl-vs-re", cause="clean-std")))
         agree = ("error" not in re and _close(cl["redchisq"], re["rchisq"]) and _close(cl["meanRe"], re["meanRe"])
                  and _close(cl["meanIm"], re["meanIm"]) and cl["ndof"] == re["ndof"])
         if not agree:
@@ -229,7 +261,7 @@ def run(ctx):
             rec = json.load(open(os.path.join(d, fn)))
             cases += rec.get("cases", [rec] if "samples" in rec else [])
     streams = ["clean"] * 4 + ["zeros"] * 2 + ["nan"] * 2 + ["complex"] * 2 + ["allign"]
-    for i in range(ctx.n(120, 1500)):
+    for i in range(ctx.n(88, 1200)):
         cases.append(_gen(ctx.rng, streams[i % len(streams)]))
     reals, lines, index = [], [], []
     for ci, case in enumerate(cases):
@@ -254,7 +286,8 @@ def run(ctx):
         nontrivial = len(line["samples"]) > 1 or any(e is None for a in line["samples"] for e in a)
         ctx.case(sub, nontrivial)
         ctx.stat(f"{which}:{case.get('stream', 'corpus')}")
-        keys = ("redchisq", "meanRe", "meanIm", "ndof", "nigndof") if which == "cl" else ("rchisq", "meanRe", "meanIm", "ndof")
+        keys = (("redchisq", "meanRe", "meanIm", "ndof", "nigndof", "redchisqVar", "meanReVar") if which == "cl"
+                else ("rchisq", "meanRe", "meanIm", "ndof", "rchisqVar", "meanReVar"))
         if not _cmp(r[which], out, keys):
             ctx.disagree(dict(case, _key=key), r[which], out, f"{'classic' if which == 'cl' else 'JAX'} statistics of one key vs model")
         if which == "re" and "error" in out:
